@@ -157,6 +157,20 @@ func (m *Manager) trySyncNextBlock(ctx context.Context, daHeight uint64) error {
 
 		// validate the received block before applying
 		if err := m.Validate(ctx, h, d); err != nil {
+			// Data received over P2P is not authenticated (only headers are signed). When the header is
+			// well-formed and it is the cached data that does not belong to it, that data is dropped and
+			// the node keeps waiting for the data the header commits to, instead of terminating the
+			// sync loop on one junk item gossiped for the next height.
+			if h.ValidateBasic() == nil && types.Validate(h, d) != nil {
+				m.logger.Debug("cached data does not match the header, dropping it", "height", hHeight)
+				m.dataCache.DeleteItem(currentHeight + 1)
+				if bytes.Equal(h.DataHash, dataHashForEmptyTxs) {
+					// an empty block needs no data event: rebuild what the junk item replaced
+					m.handleEmptyDataHash(ctx, &h.Header)
+					continue
+				}
+				return nil
+			}
 			return fmt.Errorf("failed to validate block: %w", err)
 		}
 
